@@ -3,6 +3,8 @@
 package storage
 
 import (
+	"os"
+
 	"github.com/KevoDB/kevo/pkg/config"
 	"github.com/KevoDB/kevo/pkg/stats"
 	"github.com/KevoDB/kevo/pkg/wal"
@@ -22,7 +24,13 @@ func VerifC08_SeqMonotone() {
 	var last uint64
 	n := vsym.IntRange("n", 1, 4)
 	for i := 0; i < n; i++ {
-		switch vsym.IntRange("op", 0, 3) {
+		switch vsym.IntRange("op", 0, 4) {
+		case 4: // a put whose log entry is fragmented over several records
+			big := make([]byte, 33000)
+			big[0], big[len(big)-1] = vsym.Byte("b"), vsym.Byte("b")
+			vsym.Assert(m.Put(k, big) == nil, "Put of a large value failed")
+			writeOf = append(writeOf, writes)
+			writes++
 		case 0:
 			vsym.Assert(m.Put(k, vsym.Bytes("v", 1)) == nil, "Put failed")
 			writeOf = append(writeOf, writes)
@@ -54,6 +62,55 @@ func VerifC08_SeqMonotone() {
 		} else {
 			vsym.Assert(seqs[i] > seqs[i-1], "a later write carries a sequence number that is not greater")
 		}
+	}
+	vsym.Reach("done")
+}
+
+// VerifC08_SeqAcrossDamagedRecovery: the log tail is cut at any byte offset (as a crash leaves it), the database is
+// reopened and written to, closed, reopened and written to again: every acknowledged write is stamped with a
+// sequence number greater than that of every write acknowledged before it, and the reported last sequence never
+// decreases - across both recoveries.
+func VerifC08_SeqAcrossDamagedRecovery() {
+	cfg := config.NewDefaultConfig(vsym.Dir())
+	m, err := NewManager(cfg, stats.NewAtomicCollector())
+	vsym.Assert(err == nil, "NewManager failed")
+	k := vsym.Bytes("k", 1)
+	n := vsym.IntRange("n", 1, 2)
+	var ends []int
+	off := 0
+	for i := 0; i < n; i++ {
+		vsym.Assert(m.Put(k, vsym.Bytes("v", 1)) == nil, "Put failed")
+		off += wal.HeaderSize + 1 + 8 + 4 + 1 + 4 + 1
+		ends = append(ends, off)
+	}
+	vsym.Assert(m.Close() == nil, "Close failed")
+	files, _ := wal.FindWALFiles(cfg.WALDir)
+	vsym.Assert(len(files) == 1, "expected one log file")
+	data, err := os.ReadFile(files[0])
+	vsym.Assert(err == nil && len(data) == off, "log size differs from the harness' bookkeeping")
+	cut := vsym.IntRange("cut", 0, off)
+	vsym.Assert(os.WriteFile(files[0], data[:cut], 0644) == nil, "rewrite failed")
+	intact := uint64(0)
+	for int(intact) < n && ends[intact] <= cut {
+		intact++
+	}
+	// the surviving writes carry 1..intact; everything acknowledged from now on must be above that, and increasing
+	last := intact
+	var reported uint64
+	for round := 0; round < 2; round++ {
+		m, err = NewManager(cfg, stats.NewAtomicCollector())
+		vsym.Assert(err == nil, "open failed")
+		if err != nil {
+			return
+		}
+		cur, _ := m.GetStorageStats()["last_sequence"].(uint64)
+		vsym.Assert(cur >= reported, "reported last sequence decreased across a restart")
+		vsym.Assert(m.Put(k, vsym.Bytes("w", 1)) == nil, "Put after recovery failed")
+		cur, _ = m.GetStorageStats()["last_sequence"].(uint64)
+		vsym.Assert(cur > last, "a write after recovery is stamped with a sequence number that was already used")
+		vsym.Assert(cur >= reported, "reported last sequence decreased")
+		last, reported = cur, cur
+		vsym.Assert(m.Close() == nil, "Close failed")
 	}
 	vsym.Reach("done")
 }
